@@ -15,7 +15,7 @@ import (
 func init() { register("C12", "exploration", checkC12) }
 
 func checkC12(c *hx.Ctx) {
-	c.Rule("(a) intake: update and recover requests for every pairing of revealed key K_i and next commitment c_h(K_j) (4 keys x 4 keys x reveal hash {sha2-256, sha2-512} x commitment hash {sha2-256, sha2-512} x protocols allowing [256], [512], [256,512], [512,256]) and creates/recovers with equal/unequal update and recovery commitments - exhaustive; keys carrying nonces: the same key material seen under one nonce, then revealed and re-committed under another nonce in the same process; accepted iff the next commitment is not a commitment of the revealed key (under any enabled algorithm) and update != recovery commitment; every request intake must refuse is also handed to the batch writer's REAL operation handler (the last gate before anchoring), which must not write batch files for it; the same requests with an anchoring window that has not opened yet (parser with a server-time validator) stay refused; (b) resolution: commitment cycles of length 1-5 (every rotation, every anchoring order of up to 5 operations, for the update and the recovery chain) (also with a legitimate later competitor of the cycle-closing operation, with a protocol upgrade in the middle of the chain, and recovery cycles built from / closed by recovers that carry no delta) under the online trace checker T3 (no commitment consumed twice, no successor already consumed) with step budget, compared with the reference model; cycles resolved on ONE processor that serves other resolutions at the same time (nested before every operation application, and from goroutines); non-trivial = pairing i==j or a history containing a full cycle")
+	c.Rule("(a) intake: update and recover requests for every pairing of revealed key K_i and next commitment c_h(K_j) (4 keys x 4 keys x reveal hash {sha2-256, sha2-512} x commitment hash {sha2-256, sha2-512} x protocols allowing [256], [512], [256,512], [512,256]) and creates/recovers with equal/unequal update and recovery commitments - exhaustive; keys carrying nonces: the same key material seen under one nonce, then revealed and re-committed under another nonce in the same process; accepted iff the next commitment is not a commitment of the revealed key (under any enabled algorithm) and update != recovery commitment; every decision is asked for again from the same parser (a second submission, and after the parser has served the resolution-side entry points for the same bytes) and must not change; every request intake must refuse is also handed to the batch writer's REAL operation handler (the last gate before anchoring), which must not write batch files for it; the same requests with an anchoring window that has not opened yet (parser with a server-time validator) stay refused; (b) resolution: commitment cycles of length 1-5 (every rotation, every anchoring order of up to 5 operations, for the update and the recovery chain) (also with a legitimate later competitor of the cycle-closing operation, with a protocol upgrade in the middle of the chain, and recovery cycles built from / closed by recovers that carry no delta) under the online trace checker T3 (no commitment consumed twice, no successor already consumed) with step budget, compared with the reference model; cycles resolved on ONE processor that serves other resolutions at the same time (nested before every operation application, and from goroutines); non-trivial = pairing i==j or a history containing a full cycle")
 	c.Set("exhaustive", true)
 	rng := c.Rng("keys")
 	typeSets := [][]string{{"P-256", "Ed25519", "secp256k1", "P-384"}}
@@ -70,6 +70,10 @@ func checkC12(c *hx.Ctx) {
 			}
 			c.Eval()
 			_, err := v.Parser.Parse(hx.Namespace, op.Request)
+			if why := intakeDecisionChanges(v, op.Request, err); why != "" {
+				c.Violation("C12 "+why+": "+fmt.Sprintf("%s reveals %s next commitment = c_%#x(%s) protocol algs %v", j.op, keys[j.i].Name, j.hNext, keys[j.j].Name, j.algs), map[string]interface{}{"request": string(op.Request), "protocol": p})
+				return
+			}
 			mustReject := j.i == j.j
 			desc := fmt.Sprintf("%s reveals %s(%s, reveal hash %#x) next commitment = c_%#x(%s) protocol algs %v", j.op, keys[j.i].Name, keys[j.i].Type, j.hReveal, j.hNext, keys[j.j].Name, j.algs)
 			if mustReject && err == nil {
@@ -122,6 +126,9 @@ func checkC12(c *hx.Ctx) {
 					cs := &ref.CreateSpec{Code: code, RecoveryCommitment: keys[i].Commitment(code), Delta: ref.Delta(keys[j].Commitment(code), k2)}
 					c.Eval()
 					_, err := v.Parser.Parse(hx.Namespace, ref.MustJCS(cs.Request()))
+					if why := intakeDecisionChanges(v, ref.MustJCS(cs.Request()), err); why != "" {
+						c.Violation(fmt.Sprintf("C12 %s: create with recovery commitment c(%s) and update commitment c(%s)", why, keys[i].Name, keys[j].Name), map[string]interface{}{"request": string(ref.MustJCS(cs.Request())), "protocol": p})
+					}
 					if (i == j) != (err != nil) {
 						c.Violation(fmt.Sprintf("C12 create with recovery commitment c(%s) and update commitment c(%s): accepted=%v", keys[i].Name, keys[j].Name, err == nil),
 							map[string]interface{}{"request": string(ref.MustJCS(cs.Request())), "protocol": p, "error": fmt.Sprint(err)})
@@ -132,6 +139,9 @@ func checkC12(c *hx.Ctx) {
 					rec := u.MkSigned("rec", "recover", signer, keys[i].Commitment(code), keys[j].Commitment(code), k2, SignedOpts{})
 					c.Eval()
 					_, err = v.Parser.Parse(hx.Namespace, rec.Request)
+					if why := intakeDecisionChanges(v, rec.Request, err); why != "" {
+						c.Violation(fmt.Sprintf("C12 %s: recover with next recovery commitment c(%s) and update commitment c(%s)", why, keys[i].Name, keys[j].Name), map[string]interface{}{"request": string(rec.Request), "protocol": p})
+					}
 					if (i == j) != (err != nil) {
 						c.Violation(fmt.Sprintf("C12 recover with next recovery commitment c(%s) and update commitment c(%s): accepted=%v", keys[i].Name, keys[j].Name, err == nil),
 							map[string]interface{}{"request": string(rec.Request), "protocol": p, "error": fmt.Sprint(err)})
@@ -450,4 +460,19 @@ func writerGateRefuses(p protocol.Protocol, typ, suffix string, req []byte) bool
 	v := hx.NewVersion(p, hx.VersionOpts{CAS: hx.NewMemCAS()})
 	info, err := v.Handler.PrepareTxnFiles([]*operation.QueuedOperation{{Type: operation.Type(typ), OperationRequest: req, UniqueSuffix: suffix, Namespace: hx.Namespace}})
 	return err != nil || info == nil || info.AnchorString == ""
+}
+
+// intakeDecisionChanges asks the same parser again - once more as it is, and after it has served the resolution-side entry points
+// (reveal value, commitment, batch-mode parsing) for the same bytes - and reports if intake decides differently than the first time.
+func intakeDecisionChanges(v *hx.Version, req []byte, first error) string {
+	if _, again := v.Parser.Parse(hx.Namespace, req); (again == nil) != (first == nil) {
+		return fmt.Sprintf("intake decided differently when the same request was submitted a second time (first: accepted=%v, second: accepted=%v)", first == nil, again == nil)
+	}
+	_, _ = v.Parser.GetRevealValue(req)
+	_, _ = v.Parser.GetCommitment(req)
+	_, _ = v.Parser.ParseOperation(hx.Namespace, req, true)
+	if _, after := v.Parser.Parse(hx.Namespace, req); (after == nil) != (first == nil) {
+		return fmt.Sprintf("intake decided differently after the same parser had served reveal value / commitment / batch-mode parsing for the request (before: accepted=%v, after: accepted=%v)", first == nil, after == nil)
+	}
+	return ""
 }
